@@ -120,6 +120,8 @@ int main(int argc, char** argv) {
     { R"(D{(a,b) \in X1*X1 | a \eq b})", Factory::Set({ Factory::Tuple({ Factory::Val(1), Factory::Val(1) }), Factory::Tuple({ Factory::Val(2), Factory::Val(2) }), Factory::Tuple({ Factory::Val(3), Factory::Val(3) }) }) },
     { R"(I{(a,b) | (a,b) \from X1*X1; a \eq b})", Factory::Set({ Factory::Tuple({ Factory::Val(1), Factory::Val(1) }), Factory::Tuple({ Factory::Val(2), Factory::Val(2) }), Factory::Tuple({ Factory::Val(3), Factory::Val(3) }) }) },
     { R"(D{x \in X1 | \A (a,b) \in X1*X1 a \eq a})", Factory::SetV({ 1, 2, 3 }) },
+    { R"(D{x \in X1 | \E (a,b),(c,d) \in X1*X1 (a \eq x \and c \eq x)})", Factory::SetV({ 1, 2, 3 }) },
+    { R"(D{x \in X1 | \A (a,b),y \in X1*X1 (a,b) \in X1*X1})", Factory::SetV({ 1, 2, 3 }) },
   };
   for (const auto& sc : scenarios) {
     std::printf("%s\n", sc.expr.c_str());
